@@ -263,6 +263,102 @@ def distinct_memmaps(rng, block, memmap):
     return memmap
 
 
+# ---- hostile names -----------------------------------------------------------------------------
+C_KEYWORDS = ('auto break case char const continue default do double else enum extern float for goto if '
+              'inline int long register restrict return short signed sizeof static struct switch typedef '
+              'union unsigned void volatile while _Bool NULL main malloc memcpy free size_t uint64_t uint8_t').split()
+NEED_SANITISING = ['a b', 'a.b', 'a[0]', 'a[1]', 'x(y)', 'p->q', 'a-b', 'a+b', 'a*b', 'q?', '0abc', '9', 'x\n', '\ty',
+                   "a'b", 'a"b', 'a\\b', '%s', '%d', '{}', '{0}', '*/', '/*', '//c', '#define', ';', 'a;b', 'a,b',
+                   '\u00e9t\u00e9', '\u03bb', '\u4e2d\u6587', 'na\u00efve', ' ', ' lead', 'trail ', "it's", '$x', '@x', 'x:y', 'a=b', 'a = b',
+                   "d['x']", 'outs["o"]']
+NEAR_DUPLICATES = ['nd_ab', 'nd ab', 'nd.ab', 'nd-ab', 'nd_a_b', 'nd a b', 'nd.a.b', 'ndab', 'NDAB', 'ndab_', '_ndab', 'nd__ab']
+_HOSTILE_POOL = []
+
+
+def emitted_identifiers():
+    """every identifier the two code generators use themselves, read off what they emit NOW for a
+    sample design that has an input, a register, a memory, a ROM, wide arithmetic and an output"""
+    pyrtl.reset_working_block()
+    a, b = pyrtl.Input(70, 'sa'), pyrtl.Input(70, 'sb')
+    r = pyrtl.Register(70, 'sr')
+    m = pyrtl.MemBlock(bitwidth=70, addrwidth=2, name='sm', max_read_ports=None, asynchronous=True)
+    rom = pyrtl.RomBlock(bitwidth=4, addrwidth=2, romdata=[1, 2, 3, 4], name='srom', max_read_ports=None,
+                         asynchronous=True)
+    o = pyrtl.Output(141, 'so')
+    t = (a * b) + pyrtl.concat(~a, (a - b)[:70]) + pyrtl.select(a < b, m[a[:2]], r) + rom[b[:2]]
+    o <<= t
+    r.next <<= (r + a)[:70]
+    m[b[:2]] <<= pyrtl.MemBlock.EnabledWrite(a, a == b)
+    block = pyrtl.working_block()
+    idents = set()
+    fs = pyrtl.FastSimulation(tracer=pyrtl.SimulationTrace(wires_to_track='all', block=block), block=block)
+    idents.update(re.findall(r'[A-Za-z_][A-Za-z_0-9]*', fs._compiled()))
+    pre = getattr(fs.internal_names, 'internal_prefix', '')          # the sanitizer's own temporaries
+    if pre:
+        idents.update([pre, pre + '0', pre + '1', pre + '2', pre + '10', pre + 'x'])
+    cs = pyrtl.CompiledSimulation(tracer=pyrtl.SimulationTrace(block=block), block=block)
+    import os
+    with open(os.path.join(cs._dir, 'pyrtlsim.c')) as f:
+        idents.update(re.findall(r'[A-Za-z_][A-Za-z_0-9]*', f.read()))
+    del cs
+    own = {w.name for w in block.wirevector_set}
+    pyrtl.reset_working_block()
+    return sorted(x for x in idents if x not in own and len(x) < 24)
+
+
+def hostile_pool():
+    """names a design may legally carry and that could confuse a code generator"""
+    if not _HOSTILE_POOL:
+        import keyword
+        import builtins
+        emitted = emitted_identifiers()
+        temps = set()
+        for x in emitted:                         # internal temporaries of each generator: the name, its prefix, neighbours
+            mt = re.match(r'^(.*?)(\d+)(_?.*)$', x)
+            if mt and mt.group(1):
+                temps.update([x, mt.group(1), mt.group(1) + '0', mt.group(1) + '1', mt.group(1) + '999' + mt.group(3)])
+        temps.update(['_fastsim_tmp_', '_fastsim_tmp_0', '_fastsim_tmp_1', '_fastsim_tmp_2', '_sani_temp0', '_vcd_tmp_0',
+                      'tmp0', 'tmp1', 'tmp', 'const_0_1', 'regtmp0', 'regtmp1', 't0', 't1', 'w0_', 'm0_'])
+        py_names = list(keyword.kwlist) + ['int', 'len', 'print', 'str', 'dict', 'list', 'bool', 'max', 'sum', 'id',
+                                           'type', 'object', 'self', 'exec', 'compile', 'range', '__builtins__',
+                                           '__name__', 'd', 'regs', 'outs', 'mem_ws', 'sim_func', 'get', 'append']
+        py_names += [x for x in dir(builtins) if x.islower() and len(x) <= 5][:25]
+        pool = []
+        for grp in (py_names, emitted, sorted(temps), C_KEYWORDS, NEED_SANITISING, NEAR_DUPLICATES):
+            for x in grp:
+                if x and x not in pool:
+                    pool.append(x)
+        _HOSTILE_POOL.extend(pool)
+    return _HOSTILE_POOL
+
+
+def apply_hostile_names(rng, d, frac):
+    """rename a fraction of the inputs, outputs, registers, internal wires, constants and memories of a
+    built design with names from the hostile pool (WireVector.name is a documented read/write property)"""
+    block = d.block
+    pool = list(hostile_pool())
+    rng.shuffle(pool)
+    used = set(block.wirevector_by_name)
+    renamed = []
+    for w in sorted(block.wirevector_set, key=lambda x: x.name):
+        if rng.random() >= frac:
+            continue
+        while pool and pool[-1] in used:
+            pool.pop()
+        if not pool:
+            break
+        nm = pool.pop()
+        used.add(nm)
+        renamed.append((type(w).__name__, w.name, nm))
+        w.name = nm
+    for m in block_mems(block):
+        if rng.random() < frac:
+            m.name = rng.choice(hostile_pool())       # memory names need not even be unique
+            renamed.append(('Mem', m.id, m.name))
+    d.renamed = renamed
+    return d
+
+
 MEMHASH_AW = [9, 12, 16, 33]
 MEMHASH_OFFSETS = {9: [0, 256], 12: [0, 256, 512, 2048], 16: [0, 256, 512, 25600],
                    33: [0, 256, 512, 1 << 32, (1 << 32) + 256]}
@@ -578,7 +674,8 @@ def replay_dict(ctx, case, extra=None):
            'nets': [str(n) for n in case.get('ordered_nets', [])][:250],
            'inputs': case['inputs'], 'default_value': case['dflt'],
            'regmap': {r.name: v for r, v in case['regmap'].items()},
-           'memmap': {'%s#id%d' % (m.name, m.id): c for m, c in case['memmap'].items()}}
+           'memmap': {'%s#id%d' % (m.name, m.id): c for m, c in case['memmap'].items()},
+           'renamed': case.get('renamed')}
     rep.update(extra or {})
     return rep
 
@@ -671,18 +768,14 @@ MASK_RE = re.compile(r'^(\d+) & ')
 def fast_elision_from_source(case):
     """per net of case['ordered_nets']: 1 = `dest = expr`, 0 = `dest = mask & expr`, 2 = '@' (no assignment)"""
     fs = case['fast_obj']
-    lines = {}
-    for ln in case['fast_src'].split('\n'):
-        if ln.startswith('    ') and ' = ' in ln and not ln.startswith('    outs["'):
-            lhs, rhs = ln[4:].split(' = ', 1)
-            lines.setdefault(lhs, rhs)
+    src_lines = [ln for ln in case['fast_src'].split('\n') if ln.startswith('    ')]
     flags = []
     for n in case['ordered_nets']:
         if n.op == '@':
             flags.append(2)
             continue
-        lhs = fs._dest_varname(n.dests[0])
-        rhs = lines.get(lhs)
+        prefix = '    %s = ' % fs._dest_varname(n.dests[0])
+        rhs = next((ln[len(prefix):] for ln in src_lines if ln.startswith(prefix)), None)
         if rhs is None:
             flags.append(-1)
             continue
@@ -692,6 +785,21 @@ def fast_elision_from_source(case):
 
 
 # ----------------------------------------------------------------------------- main
+
+def name_class(nm):
+    import keyword
+    if keyword.iskeyword(nm):
+        return 'python keyword'
+    if nm in C_KEYWORDS:
+        return 'C keyword/library'
+    if nm in NEED_SANITISING or not re.match(r'^[A-Za-z_][A-Za-z_0-9]*$', nm):
+        return 'needs sanitising'
+    if nm in NEAR_DUPLICATES:
+        return 'near-duplicate'
+    if re.search(r'\d', nm) or nm.endswith('_'):
+        return 'temporary-like'
+    return 'identifier used by generated code / builtin'
+
 
 def width_bucket(w):
     if w <= 8:
@@ -725,6 +833,16 @@ def run(ctx):
     for i in range(n_modules):                    # one sub-module instantiated several times
         rng = ctx.sub_rng('modules', i)
         designs.append(('modules', i, modules_design(rng)))
+    n_hostile = 12 if quick else 120
+    for i in range(n_hostile):                    # hostile names on every kind of wire and on memories
+        rng = ctx.sub_rng('hostile', i)
+        if i % 6 == 0:
+            d = sweep_design(rng, SWEEP_WIDTHS[(i // 6) % 6], i // 6)
+        else:
+            d = random_design(rng, i % 2 == 1)
+        designs.append(('hostile', i, apply_hostile_names(rng, d, rng.choice([0.35, 0.7, 1.0]))))
+        for kind, _, nm in d.renamed:
+            ctx.count('hostile_names', '%s: %s' % (kind if kind != 'WireVector' else 'Wire', name_class(nm)))
     n_memhash = 8 if quick else 48
     for i in range(n_memhash):                    # hash-map collisions in the C memories
         rng = ctx.sub_rng('memhash', i)
@@ -757,7 +875,7 @@ def run(ctx):
             dflt = 0 if (rng.random() < 0.85 or family == 'memhash') else 1
             case = dict(idx=len(cases), family=family, design=i, variant=variant, block=block, mem_addrs=mem_addrs,
                         regmap=regmap, memmap=memmap, inputs=inputs, dflt=dflt, has_mem=has_mem,
-                        ops=list(d.ops))
+                        ops=list(d.ops), renamed=getattr(d, 'renamed', None) if variant == 'pre' else None)
             case['py'] = run_python_sims(case)
             cases.append(case)
     pyrtl.reset_working_block()
@@ -934,7 +1052,7 @@ def compare_case(ctx, case):
 
     # ---- search: FastSimulation vs Simulation
     if isinstance(fast, str):
-        ctx.spec_violation('fast:raises', 'FastSimulation raised where Simulation ran: ' + fast,
+        ctx.spec_violation('fast:raises:' + fast.split()[1].rstrip(':'), 'FastSimulation raised where Simulation ran: ' + fast,
                            replay_dict(ctx, case))
     else:
         ftrace, fmem = fast
@@ -961,13 +1079,17 @@ def compare_case(ctx, case):
     if case['dflt'] != 0 and case['has_mem']:
         ctx.count('compared', 'compiled excluded (non-zero default_value with memories: sanctioned)')
     elif isinstance(comp, str):
-        ctx.spec_violation('compiled:raises', 'CompiledSimulation raised where Simulation ran: ' + comp,
+        ctx.spec_violation('compiled:raises:' + comp.split()[1].rstrip(':'), 'CompiledSimulation raised where Simulation ran: ' + comp,
                            replay_dict(ctx, case))
     else:
         ctrace, cmem = comp
         ctx.count('compared', 'compiled-vs-sim')
         ctx.count('compiled_traced_wires', min(len(ctrace), 40) // 10 * 10)
-        missing = [nm for nm in ref_trace if isinstance(wires[nm], (pyrtl.Input, pyrtl.Output)) and nm not in ctrace]
+        # what a default tracer tracks (names that look internal -- tmp*, const_*, *' -- are left out by
+        # SimulationTrace itself, for every simulator)
+        default_tracked = set(pyrtl.SimulationTrace(block=block).trace)
+        missing = [nm for nm in ref_trace if isinstance(wires[nm], (pyrtl.Input, pyrtl.Output))
+                   and nm in default_tracked and nm not in ctrace]
         if missing:
             ctx.spec_violation('compiled:traced-wire-set', 'CompiledSimulation does not trace some Inputs/Outputs',
                                replay_dict(ctx, case, {'missing': missing[:10]}))
